@@ -36,6 +36,13 @@ def san(s):
     return re.sub(r'_+', '_', re.sub(r'[^A-Za-z0-9]', '_', s)).strip('_')
 
 
+def fact_name(expr):
+    """macro name of a compiler-computed constant: readable part + hash of the exact C++ expression, so that expressions that
+    differ only in characters the readable part drops (int vs int *) never share a macro"""
+    import hashlib
+    return 'CXV_' + san(expr) + '_' + hashlib.sha1(expr.encode()).hexdigest()[:8]
+
+
 def struct_tag(cxx_name, prefix='S_'):
     """C struct tag for a C++ record spelling; injective on the pieces that distinguish wrapper instantiations"""
     n = norm_name(cxx_name)
@@ -758,7 +765,10 @@ class Emitter:
                 self.lowerings['L-dtor(NRVO: local returned in place)'] += 1
                 return extra + p + 'return %s;\n' % nv
             if self.returns_ref(fn):
-                return extra + p + 'return &(%s);\n' % self.E(e)
+                if extra:
+                    # the returned reference is bound before the guards' destructors run
+                    return p + '{ void *ret_ = (void *)%s;\n' % self.addr(self.E(e)) + extra + p + 'return ret_; }\n'
+                return p + 'return &(%s);\n' % self.E(e)
             rt = self.ret_cxx(fn)
             if rt[0] == 'n' and rt[1] == 'void':
                 return p + self.E(e) + ';\n' + extra + p + 'return;\n'
@@ -1166,8 +1176,10 @@ class Emitter:
                         raise ExtractError('template argument of %s not printable' % rd.get('name'))
                     args.append(str(v))
         expr = '%s%s<%s>' % (scope, d['name'], ', '.join(args))
-        key = 'CXV_' + san(expr)
+        key = fact_name(expr)
         self.facts.setdefault(key, (expr, self.cdecl(self._strip_top_quals(t))))
+        if self.facts[key][0] != expr:
+            raise ExtractError('two constant facts share the name %s: %r and %r' % (key, self.facts[key][0], expr))
         self.lowerings['B-fact(constexpr variable template)'] += 1
         return key
 
@@ -1193,8 +1205,10 @@ class Emitter:
                 disp = self.tu.rec_name.get(prec['id'])
                 if disp and '?' not in disp:
                     expr = '%s::%s' % (disp, d['name'])
-                    key = 'CXV_' + san(expr)
+                    key = fact_name(expr)
                     self.facts.setdefault(key, (expr, self.cdecl(self._strip_top_quals(t))))
+                    if self.facts[key][0] != expr:
+                        raise ExtractError('two constant facts share the name %s: %r and %r' % (key, self.facts[key][0], expr))
                     self.lowerings['B-fact(static constexpr member)'] += 1
                     return key
         name = san(d.get('mangledName') or d['name'])
